@@ -470,12 +470,14 @@ def main():
                 gd = START + dt.timedelta(days=rng.choice([0, 1, 3]))
                 onstart = rng.random() < 0.3
                 opt = " { onstart }" if onstart else rng.choice(["", "", " { gapduration 2h }"])
+                on_container = rng.random() < 0.35       # the edge (with its options) is declared on the container and inherited
                 alap_ = rng.random() < 0.3
                 if alap_:
                     onstart, opt = False, rng.choice(["", " { gapduration 2h }"])
                 text = ('project prj "P" 2025-01-06 +3w { timezone "UTC"' + (" scheduling alap" if alap_ else "") + ' }\nresource r "r" {}\nresource q "q" {}\n'
                         f'task a "a" {{ effort {e[0]} allocate r }}\n'
-                        f'task g "g" {{ ' + ("" if alap_ else f'start {gd.strftime("%Y-%m-%d")}') + f'\n  task x "x" {{ effort {e[1]} allocate q depends a{opt} }}\n'
+                        f'task g "g" {{ ' + ("" if alap_ else f'start {gd.strftime("%Y-%m-%d")}') + (f' depends a{opt}' if on_container else "")
+                        + f'\n  task x "x" {{ effort {e[1]} allocate q' + ("" if on_container else f' depends a{opt}') + ' }\n'
                         f'  task y "y" {{ effort {e[2]} allocate q }}\n}}\n'
                         f'task z "z" {{ effort {e[3]} allocate r depends g }}\n')
                 key = f"C04/dated/{SEED}/{k}"
@@ -483,10 +485,13 @@ def main():
                 evals += 1
                 record(key, text)
                 d_ = dates(proj)
+                if not all(v[2] for v in d_.values()):
+                    fails.append({"clause": "C04:feasible-project-unscheduled", "key": key, "input": text,
+                                  "detail": f"unscheduled: {[f for f, v in d_.items() if not v[2]]}"})
                 if all(v[2] for v in d_.values()):
                     bound = d_["a"][0] if onstart else d_["a"][1] + dt.timedelta(hours=2 if "gapduration" in opt else 0)
-                    if d_["g.x"][0] < bound:
-                        fails.append({"clause": "C04:dated-container-child", "key": key, "input": text, "detail": f"g.x starts {d_['g.x'][0]} before its bound {bound}"})
+                    if d_["g.x"][0] < bound or (on_container and d_["g.y"][0] < bound):
+                        fails.append({"clause": "C04:dated-container-child", "key": key, "input": text, "detail": f"g.x/g.y start {d_['g.x'][0]}/{d_['g.y'][0]} before the bound {bound}"})
                     if not alap_ and (d_["g.x"][0] < gd or d_["g.y"][0] < gd):
                         fails.append({"clause": "C04:container-start-bound", "key": key, "input": text, "detail": f"children start {d_['g.x'][0]}, {d_['g.y'][0]} before the container's start {gd}"})
                     if d_["z"][0] < d_["g"][1]:
